@@ -11,7 +11,6 @@ import (
 	"github.com/moorara/algo/grammar"
 	"github.com/moorara/algo/parser/lr"
 	"github.com/moorara/algo/parser/lr/canonical"
-	"github.com/moorara/algo/parser/lr/lookahead"
 	"github.com/moorara/algo/parser/lr/simple"
 	"github.com/moorara/algo/sort"
 )
@@ -228,7 +227,7 @@ func (s *Spec) LALRParsingTable() (T *lr.ParsingTable, err error) {
 		return nil, fmt.Errorf("error on building LALR(1) parsing table:\nthe grammar is cyclic, hence ambiguous: %s derives itself", A)
 	}
 
-	T, err = lookahead.BuildParsingTable(s.Grammar, s.Precedences)
+	T, err = buildLALRParsingTable(s.Grammar, s.Precedences)
 	if err != nil {
 		return nil, fmt.Errorf("error on building LALR(1) parsing table:\n%s", err)
 	}
